@@ -144,6 +144,18 @@ CLAIMS = {
                 "Known findings (simple_shear gradient = 2×Jacobian, cell_2d row exchange, stateful event) are listed in known_findings.json.",
         "technique": "abstract interpretation + exact symbolic differentiation of extracted normal forms; stubbed-solver wiring analysis; AST effect scan",
     },
+    "C19": {
+        "level": "other",
+        "text": "Table and flow rules decided on the source: DefaultParams is a frozen dataclass with hashable, correctly typed defaults and "
+                "as_dict = asdict; every subclass re-binds base fields only as typed dataclass fields in a frozen dataclass (otherwise the "
+                "override is dead); in the config parser every read of an optional TOML key is guarded on the CFG, operations accept the kind "
+                "of the default they may hold, handlers catch what the guarded conversions raise, no builtin is used as data, [output] "
+                "defaults reach the returned dict, and the sum/length checks raise the config error and dominate the return. What the CLI does "
+                "with the configuration is NOT decided.",
+        "note": "Trusted: the API raiser table and required-input table in pdxsa/checks/c19.py; dataclass semantics. Six defects found by these "
+                "rules were repaired (fix: commits 4ef0bda, 1653a54, bef1ec9, 47cf3aa, b5cd9cd).",
+        "technique": "dataclass/enum table checks + CFG key-definedness + kind analysis + handler/raiser agreement + scope resolution",
+    },
     "C20": {
         "level": "other",
         "text": "Identities on generic symbols for to_cartesian/to_spherical (incl. the exact round trip), poles for all six reference-axes "
